@@ -9,8 +9,9 @@ in submission order; no fetch waits while a slot is free; a fetch that timed out
 connects; timeout errors appear neither before the earliest deadline (submission + min non-zero
 timeout) nor later than the latest admissible one; a response / peer close / connect failure delivered
 before any deadline completes exactly that fetch with exactly that outcome; every future completes
-exactly once; after a final drain everything is complete and a burst of max_clients new fetches starts
-immediately (queue/active/waiting empty).
+exactly once; seen from the server: a connection that is handed over after its fetch already completed carries no
+request and is closed, and connections with a request in progress <= max_clients; after a final drain everything is
+complete and a burst of max_clients new fetches starts immediately (queue/active/waiting empty).
 
 Part "redirects" (inputs): a scripted chain of <=6 hops (301/302/303/307/308, Location drawn from 16 kinds:
 relative, absolute same origin, other host/port/scheme, scheme-relative, with userinfo, upper-case host,
@@ -54,6 +55,14 @@ Sensitivity (quick tier, seed 1, scratch copies of /repo/tornado, one mutant at 
       Found by independent mutation testing: earlier versions always passed max_redirects/follow_redirects per
       request, so the defaults channel was added to the strategy and to the chain-length x max_redirects grid
       (chains 0..6 x limits 0..5 x both channels; labels *_via_client_defaults).
+  M13 run(): the post-connect guard `if self.final_callback is None: stream.close(); return` narrowed to
+      `self.request.connect_timeout and ...` and the second guard removed (a connect that succeeds after the fetch already
+      timed out, with connect_timeout=0, is used: the request of the completed fetch is written and served)
+      -> caught at seeds 1,2,3  C09.request_written_for_completed_fetch.  Found by independent mutation testing: the admission
+      part only observed fetch futures and connect calls.  Added: the server-side view after every op (a connection handed
+      over after its fetch completed carries no request bytes and is closed; connections with a request written and not
+      closed <= max_clients), timeout pairs (0, 1.0), (None, 3.0), (1.0, None), (None, None), and the deterministic
+      "admission_grid" (every timeout pair x max_clients 1/2 x a connect that outlives its deadlines and then succeeds).
   M12 finish(): the take-over of the completion callback (final_callback = ...; self.final_callback = None; _release())
       moved to the top of the redirect branch, before the follow-up URL is computed  -> caught at seeds 1,2,3
       C09.fetch_never_completes (minimal: 302 with `Location: http://[::1`: urljoin raises ValueError after the callback
@@ -105,7 +114,9 @@ LEVEL_TEXT = (
 SHARDS = 16
 
 # =========================================================================== part A: admission
-TIMEOUT_PAIRS = [(0, 0), (1.0, 1.0), (3.0, 3.0), (20.0, 20.0), (1.0, 20.0), (20.0, 1.0), (0, 3.0), (3.0, 0)]
+# (connect_timeout, request_timeout) as passed per request: 0 = disabled, None = not given (client default: 20 s)
+TIMEOUT_PAIRS = [(0, 0), (1.0, 1.0), (3.0, 3.0), (20.0, 20.0), (1.0, 20.0), (20.0, 1.0), (0, 3.0), (3.0, 0),
+                 (0, 1.0), (None, 3.0), (1.0, None), (None, None)]
 MAX_FETCHES = 8
 
 adm_op_s = st.one_of(
@@ -222,6 +233,21 @@ def run_admission(ctx, case):
                     else:
                         if r.rt and t >= r.A + r.rt:
                             fail("C09.request_timeout_missed", {"fetch": r.k, "now": t, "admitted": r.A, "timeouts": (r.ct, r.rt)})
+            # ---- what the server side sees
+            at_server = 0
+            for c in fake.calls:
+                if c.stream is None or not c.host.startswith("f"):
+                    continue
+                if not c.stream.closed() and len(c.stream.wire) > 0:
+                    at_server += 1
+                if getattr(c, "late", False):
+                    # connection handed over after its fetch had completed: nothing may be sent on it, and it must be closed
+                    if len(c.stream.wire) > 0:
+                        fail("C09.request_written_for_completed_fetch", {"step": step, "host": c.host, "wire": bytes(c.stream.wire[:80])})
+                    elif not c.stream.closed():
+                        fail("C09.connection_for_completed_fetch_left_open", {"step": step, "host": c.host})
+            if at_server > max_clients:
+                fail("C09.more_than_max_clients_requests_at_server", {"step": step, "at_server": at_server, "max_clients": max_clients})
             if inprog > max_clients:
                 fail("C09.more_than_max_clients_in_progress", {"step": step, "in_progress": inprog, "max_clients": max_clients, "op": op})
             if inprog < max_clients and waiting:
@@ -256,9 +282,11 @@ def run_admission(ctx, case):
             if kind == "fetch":
                 if len(recs) >= MAX_FETCHES:
                     continue
-                ct, rt = TIMEOUT_PAIRS[op[1]]
+                ct_arg, rt_arg = TIMEOUT_PAIRS[op[1]]
+                ct = 20.0 if ct_arg is None else ct_arg
+                rt = 20.0 if rt_arg is None else rt_arg
                 k = len(recs)
-                fut = client.fetch("http://f%d.test/" % k, raise_error=False, connect_timeout=ct, request_timeout=rt,
+                fut = client.fetch("http://f%d.test/" % k, raise_error=False, connect_timeout=ct_arg, request_timeout=rt_arg,
                                    follow_redirects=False)
                 recs.append(FetchRec(k, t, ct, rt, fut))
             elif kind in ("connect_ok", "connect_fail"):
@@ -270,6 +298,9 @@ def run_admission(ctx, case):
                 r = rec_of(c)
                 live = not r.fut.done() and deadline_free(r, t)
                 if kind == "connect_ok":
+                    c.late = r.fut.done()  # the fetch already completed (timed out) while this connect was pending
+                    if c.late:
+                        labels.add("connect_succeeds_after_fetch_completed")
                     c.allow()
                     if live:
                         r.connected_at = t
@@ -314,6 +345,7 @@ def run_admission(ctx, case):
             for _ in range(4 * MAX_FETCHES + 4):
                 acted = False
                 for c in pending_gates():
+                    c.late = rec_of(c).fut.done()
                     c.allow()
                     acted = True
                 await ch.settle(fake)
@@ -905,11 +937,24 @@ def red_grid():
                      hops=[{"status": 301, "loc": "other_host", "interim": False, "eof": True}] * 2)
 
 
-PARTS = {"admission": run_admission, "redirects": run_redirects, "redirect_grid": run_redirects}
+def adm_grid():
+    """Deterministic sweep: for every timeout pair, a fetch whose connect stays pending across its deadlines and then
+    SUCCEEDS, while other fetches wait for / take over the slot; then everything is answered."""
+    for pair in range(len(TIMEOUT_PAIRS)):
+        for max_clients in (1, 2):
+            for dt in (2.0, 5.0, 25.0):
+                for others in (0, 6):  # the other fetches: no timeouts at all / connect_timeout disabled
+                    yield {"max_clients": max_clients, "burst": [pair] + [others] * (max_clients + 1),
+                           "ops": [("advance", dt), ("connect_ok", 0), ("connect_ok", 0), ("respond", 0, 200),
+                                   ("advance", 1.0), ("connect_ok", 0), ("respond", 0, 404), ("respond", 0, 200)]}
+
+
+PARTS = {"admission_grid": run_admission, "admission": run_admission, "redirects": run_redirects, "redirect_grid": run_redirects}
 
 
 def main(ctx):
     ctx.run_replays(PARTS)
     ctx.enumerate(red_grid(), run_redirects, name="redirect_grid", exhaustive=False)
     ctx.explore(red_case_s, run_redirects, ctx.n(1200, 300000), name="redirects")
+    ctx.enumerate(adm_grid(), run_admission, name="admission_grid", exhaustive=False)
     ctx.explore(adm_case_s, run_admission, ctx.n(800, 120000), name="admission")
